@@ -1,7 +1,7 @@
 """
 checks.py — per-property check logic for alv.py (see DESIGN.md sections 2, 5, 7, 8).
 """
-import os, sys, json, time, random, re, subprocess, collections
+import os, sys, json, zlib, time, random, re, subprocess, collections
 import alv
 from alv import log
 sys.path.insert(0, os.path.join(alv.HERE, "gen"))
@@ -363,6 +363,29 @@ def check_C07(cx):
                         continue
                     prog = b"\n".join([b"nop"] * lead + [lg, lg])
                     hists.append(["N 0 %d cc" % n, "K 0 %d" % c, "A 0 %s" % cases.hexs(prog), "G 0", "M 0", "F 0"])
+    # deep inside ONE call: a prefix assembled by the same call brings the write position to 19..23 bytes before the end of the buffer
+    # (the instance's offset still holds the call's start), then an instruction longer than the reserve / an ordinary one follows
+    tails = [b"imul r9, word [0x10+4*r13], 0x8000000000000000", b"nop11 word -1\nnop11 word -1", b"mov rax, 0x1122334455667788\nmov rbx, 0x1122334455667788",
+             b"vpaddb ymm1, ymm2, [rax+r9*4+0x100]\nvpaddb ymm1, ymm2, [rax+r9*4+0x100]\nret"]
+    for n in ((64, 65, 80, 100, 127, 200) if cx.tier == "quick" else tuple(range(64, 132)) + (200, 400)):
+        for left in range(18, 25):
+            for k in (0, 3):
+                plen = n - left - k
+                if plen < 0:
+                    continue
+                prefix = [b"mov rax, 0x1122334455667788"] * (plen // 10) + [b"ret"] * (plen % 10)
+                for ti, tl in enumerate(tails):
+                    for mode in (0, 1, 2):
+                        if cx.tier == "quick" and (n + left + ti + mode) % 2:
+                            continue
+                        prog = b"\n".join(prefix + [tl])
+                        h = ["N 0 %d cc" % n]
+                        if mode == 1:
+                            h.append("K 0 64")
+                        h.append("O 0 %d" % k)
+                        h.append(("C 0 64 %s 1" if mode == 2 else "A 0 %s") % cases.hexs(prog))
+                        h += ["G 0", "M 0", "A 0 %s" % cases.hexs(b"nop"), "G 0", "M 0", "F 0"]
+                        hists.append(h)
     nex = len(hists)
     hists += gen_histories(g, 400 if cx.tier == "quick" else 6000, allow_internal=False)
     ops, out = tie_api_mod_lf(cx, impl, hists, "C07 histories on caller buffers with guard regions")
@@ -513,9 +536,50 @@ def check_C06(cx):
                 nviol += 1
                 cx.violations.append({"kind": "concat", "opt": opt, "program": text.decode("latin1"),
                                       "what": "a line that is rejected alone was accepted inside the program", "history": h})
+    # long programs on the library-managed buffer: one call, one call per line, and every two-call split whose boundary falls next to
+    # a growth point of the buffer (the split must not matter there either)
+    pool = [b"mov rax, 0x1122334455667788", b"add rax, rbx", b"ret", b"push r12", b"lea rax, [rbx+rcx*4+0x100]", b"vpaddb ymm1, ymm2, ymm3",
+            b"mov qword [rax+rbx*8+0x12345678], 0x12345678", b"clc"]
+    pres = impl_line_results(impl, [(14, l) for l in pool])
+    plen = {l: len(pres[(14, l)][1]) // 2 for l in pool}
+    lhists, lmeta = [], []
+    for rep in range(2 if cx.tier == "quick" else 8):
+        body, total = [], 0
+        while total < (6600 if rep % 2 == 0 else 12700):
+            l = r.choice(pool)
+            body.append(l)
+            total += plen[l]
+        cum, cuts = 0, []
+        for i, l in enumerate(body[:-1]):
+            cum += plen[l]
+            if any(abs(cum - q) <= 24 for q in (6000, 12000)):
+                cuts.append(i + 1)
+        whole = b"\n".join(body)
+        h = ["N 0 -", "A 0 %s" % cases.hexs(whole), "G 0", "D 0 0 %d" % total, "F 0", "N 0 -"] + \
+            ["A 0 %s" % cases.hexs(l) for l in body] + ["G 0", "D 0 0 %d" % total, "F 0"]
+        lhists.append(h)
+        lmeta.append(("per-line", total, None))
+        for c in cuts:
+            lhists.append(["N 0 -", "A 0 %s" % cases.hexs(whole), "G 0", "D 0 0 %d" % total, "F 0", "N 0 -",
+                           "A 0 %s" % cases.hexs(b"\n".join(body[:c])), "A 0 %s" % cases.hexs(b"\n".join(body[c:])), "G 0", "D 0 0 %d" % total, "F 0"])
+            lmeta.append(("split", total, sum(plen[l] for l in body[:c])))
+    lops, lout = tie_api_mod_lf(cx, impl, lhists, "C06 long programs on the library-managed buffer: one call vs per line vs splits at growth points")
+    pos = 0
+    for (kind, total, at), h in zip(lmeta, lhists):
+        o = lout[pos:pos + len(h)]
+        pos += len(h)
+        if len(o) < len(h):
+            break
+        calls = [x for x, op in zip(o, h) if op.startswith("A ")]
+        if (any(c.split()[0] != "0" for c in calls) or o[2] != str(total) or o[-3] != str(total) or o[3] != o[-2]) and nviol < 8:
+            nviol += 1
+            bad = next((i for i, c in enumerate(calls) if c.split()[0] != "0"), None)
+            cx.violations.append({"kind": "long-program-" + kind, "code_length": total, "split_at_offset": at, "first_failing_call": bad,
+                                  "offsets": [o[2], o[-3]], "what": "feeding the program in several calls on the library-managed buffer fails or "
+                                  "gives different code than one call", "history": [x[:100] for x in h[:8]]})
     cx.nontrivial.update((o, t) for o, t, _, _, _ in meta)
     cx.cov["samples"] = [hists[3], hists[npairs + 1] if len(hists) > npairs + 1 else hists[-1]]
-    cx.dist = {"ordered_pairs": npairs, "representative_lines": len(reps), "random_programs": len(progs) - npairs,
+    cx.dist = {"long_program_histories": len(lhists), "ordered_pairs": npairs, "representative_lines": len(reps), "random_programs": len(progs) - npairs,
                "programs_with_all_lines_accepted_and_2+_instructions": nontriv}
     return finish(cx, "every ordered pair of %d representative lines (one per encoding class) as a two-line program, plus seeded random "
                   "programs (2..12 lines, LF/CR/CRLF, comment/label/blank lines, all 12 option bytes), each assembled in one call and "
@@ -646,14 +710,16 @@ def check_C14(cx):
     cs = [-1, 0, 1] + list(range(2, 65 if cx.tier == "thorough" else 34)) + [2 ** 31 - 1]
     for c in cs:
         for p0 in sorted(set([0, 1, 2, 3, 5, 7, 8, 15, 16, 31] + ([max(c - 1, 0), c, c + 1] if 0 < c < 200 else []))):
-            for _ in range(2):
+            for rep in range(2):
                 text = b"\n".join(r.choice(pool) for _ in range(r.choice([1, 3, 6])))
-                h = ["N 0 400 cc", "O 0 %d" % p0, "C 0 %d %s 1" % (c, cases.hexs(text)), "G 0", "D 0 0 400",
+                # chunk fitting switched on and off again before the call: the instance is "without chunk fitting", as a fresh one
+                pre = [[], ["K 0 16", "K 0 0"], ["K 0 9", "K 0 1"], ["K 0 5", "K 0 0"], ["K 0 33", "K 0 1"], []][(len(hists) + rep) % 6]
+                h = ["N 0 400 cc"] + pre + ["O 0 %d" % p0, "C 0 %d %s 1" % (c, cases.hexs(text)), "G 0", "D 0 0 400",
                      # the same program again: the count is that of the current call only
                      "C 0 %d %s 1" % (c, cases.hexs(text)), "G 0", "A 0 %s" % cases.hexs(b"nop"), "G 0", "F 0",
                      "N 0 400 cc", "O 0 %d" % p0, "A 0 %s" % cases.hexs(text), "G 0", "D 0 0 400", "F 0"]
                 hists.append(h)
-                meta.append((14, text, c, p0))
+                meta.append((14, text, c, p0, len(pre)))
     # programs without any instruction: the count of the call is 0 (and it is written)
     for text in [b"", b"\n", b"   ", b"\t\n\n", b" \r\n \n", b"; only a comment", b"label:\n", b"section .text\n\n"]:
         for c in (-1, 0, 1, 2, 8, 64):
@@ -662,7 +728,7 @@ def check_C14(cx):
                      "C 0 %d %s 1" % (c, cases.hexs(text)), "G 0", "A 0 %s" % cases.hexs(b"nop"), "G 0", "F 0",
                      "N 0 400 cc", "O 0 %d" % p0, "A 0 %s" % cases.hexs(text), "G 0", "D 0 0 400", "F 0"]
                 hists.append(h)
-                meta.append((14, text, c, p0))
+                meta.append((14, text, c, p0, 0))
     for _ in range(300 if cx.tier == "quick" else 4000):
         c = r.choice([2, 3, 4, 5, 7, 8, 16, 32, 64, 100, 4096])
         p0 = r.randrange(0, 100)
@@ -680,10 +746,11 @@ def check_C14(cx):
         pos += len(h)
         if m is None or len(o) < len(h):
             continue
-        opt, text, c, p0 = m
+        opt, text, c, p0, npre = m
         codes, bad = line_codes(res, opt, text)
         if bad is not None:
             continue
+        o = o[:1] + o[1 + npre:]
         rc, off, dest = o[2].split()
         rc2, off2, dest2 = o[5].split()
         plain_rc, plain_off = o[12].split()
@@ -701,7 +768,8 @@ def check_C14(cx):
                                           "from plain assembly, or the following plain call failed", "history": h})
     cx.nontrivial.update(m for m in meta if m)
     cx.cov["samples"] = [hists[20], hists[-1]]
-    cx.dist = {"chunk_sizes": "%d values incl. -1,0,1,2^31-1" % len(cs), "structured": sum(1 for m in meta if m),
+    cx.dist = {"histories_with_fitting_switched_on_and_off_before_the_call": sum(1 for m in meta if m and m[4]),
+               "chunk_sizes": "%d values incl. -1,0,1,2^31-1" % len(cs), "structured": sum(1 for m in meta if m),
                "random": sum(1 for m in meta if not m), "cases_with_nonzero_count": ncross}
     return finish(cx, "chunk sizes -1,0,1,2..33(64),2^31-1 x start offsets incl. exact-fit positions x random programs from the "
                   "representative set, each counted twice in a row (per-call count), followed by a plain call (mode restored) and compared "
@@ -1006,6 +1074,16 @@ def check_C16(cx):
                  "A 0 %s" % cases.hexs(t_ins), "G 0", "D 0 0 300", "F 0"]
             hists.append(h)
             meta.append((opt, t_plain, t_ins))
+            # the same on a caller buffer in which the plain program only just fits (20 bytes of room before its last instruction):
+            # lines that emit nothing need no room
+            lens = [len(res0[(opt, l)][1]) // 2 for l in body if res0.get((opt, l), ("1", ""))[0] == "0"]
+            if len(lens) == len(body) and lens:
+                n = sum(lens[:-1]) + 20 + r.choice([0, 0, 1, 6])
+                if n >= sum(lens):
+                    h2 = ["N 0 %d cc" % n] + setopt + ["A 0 %s" % cases.hexs(t_plain), "G 0", "D 0 0 %d" % n, "O 0 0",
+                          "A 0 %s" % cases.hexs(t_ins), "G 0", "D 0 0 %d" % n, "F 0"]
+                    hists.append(h2)
+                    meta.append((opt, t_plain, t_ins))
     ops2, out2 = tie_api_mod_lf(cx, impl, hists, "C16 programs with skipped lines / CRLF")
     pos = 0
     for m, h in zip(meta, hists):
@@ -1058,6 +1136,14 @@ def malformed_families(g, corpus):
             out += [("memory", "mov rax, [%s" % b), ("memory", "mov rax, [%s+rcx*2" % b), ("memory", "lea rax, [%s+rcx*3]" % b),
                     ("memory", "lea rax, [%s+rcx*16]" % b), ("memory", "lea rax, [%s+5*rcx]" % b), ("memory", "lea rax, [%s+0*rcx]" % b),
                     ("memory", "lea rax, [%s+2*rsp]" % b), ("memory", "lea rax, [%s+rsp*4]" % b), ("memory", "lea rax, [%s+8*esp]" % b)]
+        # every way of writing a scale whose value is not 1, 2, 4 or 8: decimal numbers, products, hexadecimal, a digit glued to other characters
+        bad_scales = ["0", "3", "5", "6", "7", "9", "10", "12", "16", "18", "24", "32", "64", "100", "2*3", "1*3", "4*4", "2*8", "8*8", "3*1", "4*3",
+                      "0xa2", "0x10", "0x3", "0x12", "2x", "4h", "8.", "2.5", "1e1", "2_", "2#", "2(", "4)", "8'", "1\"", "2&", "4|", "2^", "2~", "2=",
+                      "4?", "8@", "2`", "4{", "8}", "2<", "4>", "2/", "4\\", "8$"]
+        for sc in bad_scales:
+            for tpl in ("lea rax, [rbx+%s]", "mov [%s], rax", "add qword [rbx+%s+8], 1", "vpaddd ymm1, ymm2, [r9+%s-0x80]", "lea eax, [%s+0x10]"):
+                out += [("scale", tpl % ("rcx*" + sc)), ("scale", tpl % (sc + "*rcx"))]
+            out += [("scale", "lea rax, [rbx+r13*%s]" % sc), ("scale", "lea rax, [ebx+%s*ecx]" % sc)]
         out += [("memory", "lea rax, [rsp+rsp]"), ("memory", "lea rax, [esp+esp]"), ("memory", "lea rax, [rsp+*4*r14*4]"),
                 ("memory", "mov [rax],[rbx]"), ("memory", "lea rax, [2*rsp]"), ("memory", "lea rax, [4*rsp+0x10]"), ("memory", "lea rax, [rsp+4*rsp]")]
     return out
@@ -1066,7 +1152,7 @@ def malformed_families(g, corpus):
 def check_C10(cx):
     thms = ["AL.Properties.C10." + t for t in ["rejected_line_fails_call", "rejected_line_in_program", "reject_nonprintable",
             "reject_unknown_mnemonic", "reject_unknown_mnemonic_line", "lookup_error_rejects", "reject_unknown_register",
-            "strToReg_unknown", "reject_empty_operand", "reject_unclosed_bracket", "reject_bad_scale", "reject_stack_pointer_index"]] + \
+            "strToReg_unknown", "reject_empty_operand", "reject_unclosed_bracket", "reject_bad_scale", "reject_glued_scale", "reject_stack_pointer_index"]] + \
            ["AL.Properties.C10Table." + t for t in ["formCheck_all", "nonformat_strings", "reject_bad_format", "supported_forms_found"]]
     info = stage_proofs(cx, "AL.Properties.C10", thms)
     impl = build_impl(cx)
@@ -1093,7 +1179,7 @@ def check_C10(cx):
         for k in kinds:
             if k in sup[name] or (name, k) in undefined:
                 continue
-            if cx.tier == "quick" and len(k) == 4 and (hash((name, k)) % 8):
+            if cx.tier == "quick" and len(k) == 4 and (zlib.crc32((name + k).encode()) % 8):
                 continue
             ops = [r.choice(sample_opd[c]) for c in k]
             fams.append(("form", name + (" " + ", ".join(ops) if ops else "")))
@@ -1236,6 +1322,18 @@ def check_C09(cx):
             for tail in ["5", "0x5", "]", "],5", "1]", "rbx", ",rbx,rcx,rdx,rsi,rdi"]:
                 pad = max(0, target - filt - len(tail))
                 lines.append((14, (base + "0" * pad + tail).encode()))
+    # the scanners look at the characters around brackets, signs, `*`, `x` and digits (mem[i-2] .. mem[i+3]): every ending of 1..3 such
+    # characters, placed so that the line has exactly 96..101 significant characters (the terminator at the last bytes of the line buffer)
+    import itertools
+    alphabet = "[]+-*,0x1ra"
+    endings = ["".join(t) for k in (1, 2, 3) for t in itertools.product(alphabet, repeat=k)]
+    if cx.tier == "quick":
+        endings = [e for i, e in enumerate(endings) if len(e) < 3 or i % 3 == cx.seed % 3]
+    for head, mid in (("add [rax+0x", "1],"), ("mov rax,[rbx+0x", ""), ("mov rax,0x", ""), ("vpaddb ymm1,ymm2,[rax+rcx*2-0x", "")):
+        for e in endings:
+            for target in (98, 99, 100) if cx.tier == "quick" else (96, 97, 98, 99, 100, 101):
+                pad = target - len(head.replace(" ", "")) - len(mid) - len(e)
+                lines.append((14, (head + "0" * pad + mid + e).encode()))
     for k in range(1, 9):
         lines.append((14, ("mov " + ",".join(["rax"] * k)).encode()))
         lines.append((14, ("mov " + ",".join(["[rax]"] * k)).encode()))
@@ -1564,6 +1662,50 @@ def check_C11(cx):
                       "assemble_result": xo[7 * k + 4], "what": "the executed lea yields an address different from the written one"})
     except ImplCrash as e:
         viol({"kind": "crash", "op": e.op[:300], "stderr": e.err[-800:], "what": "executing lea programs"})
+    # the option combination is the documented function of the setter history, whichever setters (single or umbrella) produced it
+    import itertools
+    setters = [("mov", v) for v in (0, 1, 2)] + [(w, v) for w in ("swap", "nobase", "sib") for v in (0, 1)] + [("all", v) for v in (0, 1, 2)]
+
+    def documented(state, w, v):
+        m_, s_, n_ = state
+        if w == "mov":
+            return (v, s_, n_)
+        if w == "swap":
+            return (m_, v, n_)
+        if w == "nobase":
+            return (m_, s_, v)
+        if w == "sib":
+            return (m_, v, v)
+        return (v, v, v) if v in (0, 1) else (2, s_, n_)      # asm_set_all(SMART) = asm_mov_imm(SMART)
+    probes = [b"mov rax, 0x5", b"lea r15, [rax+rsp]", b"lea r15, [2*rax]", b"mov rcx, 0x0000000000000005"]
+    pres = impl_line_results(impl, [(o, l) for o in cases.OPTS for l in probes])
+    sstream, sexp = ["N 0 256 cc"], []
+    for seq in itertools.product(setters, repeat=3):
+        if quick and zlib.crc32(repr(seq).encode()) % 4 != cx.seed % 4:
+            continue
+        st = (2, 1, 1)
+        sstream += ["S 0 mov 2", "S 0 swap 1", "S 0 nobase 1"]
+        for w, v in seq:
+            sstream.append("S 0 %s %d" % (w, v))
+            st = documented(st, w, v)
+        o = st[0] | st[1] << 2 | st[2] << 3
+        for l in probes:
+            sstream += ["O 0 0", "A 0 %s" % cases.hexs(l), "D 0 0 12"]
+            sexp.append((len(sstream) - 1, seq, o, l))
+    n3, sout, smism, scrash = alv.correspond(impl, sstream, "C11 option state reached through every sequence of three setter calls")
+    cx.oblige("correspondence C11 setter histories: %d ops" % n3, not smism and not scrash, json.dumps(smism[:3]))
+    for m_ in smism:
+        cx.broken.append({"correspondence": "C11 setter histories", **m_})
+    if scrash:
+        viol({"kind": "crash", **scrash})
+    for idx, seq, o, l in sexp:
+        rc, b = pres[(o, l)]
+        if idx < len(sout) and rc == "0" and not sout[idx].startswith(b):
+            viol({"kind": "setter-history", "setters": ["%s(%d)" % x for x in seq], "documented_combination": o, "line": l.decode(),
+                  "bytes": sout[idx][:24], "bytes_under_that_combination": b,
+                  "what": "after this setter history the line is not assembled as under the combination the documentation assigns to it"})
+            break
+    cx.dist["setter_histories"] = len(sexp) // len(probes)
     cx.count(nexec + nmov + nsib, [])
     cx.oblige("executed-address oracle: %d lea programs run under NASM options" % nexec, nexec > 0 or quick and not xprogs)
     cx.dist["exec_checks"] = nexec
@@ -1644,7 +1786,7 @@ ENC = {
     "C01": dict(fam="c01", quick=(14, 0), thorough=tuple(cases.OPTS), level=(0, 0),
                 rule="every instance of every integer entry of the reference opcode table whose operands are registers (all widths, r8-r15, "
                      "ah/ch/dh/bh where encodable, all synonym mnemonics), the no-operand instructions and nop..nop11"),
-    "C02": dict(fam="c02", quick=(14, 2), thorough=(14, 0), level=(0, 2),
+    "C02": dict(fam="c02", quick=(14, 2), thorough=(14, 0), level=(0, 2), mixed=(6, 10),
                 rule="every entry with a memory-capable operand over base x index x scale x displacement shapes (key registers none/rax/rsp/rbp/r12/"
                      "r13/r15, both address sizes, disp8/disp32 boundaries of both signs; thorough: all 17x16x4x13x2 shapes for mov/lea/paddb/vaddpd), "
                      "with and without size keyword and in both factor orders"),
@@ -1658,6 +1800,18 @@ ENC = {
                 rule="jmp/jcc/call/jrcxz/xbegin x {no keyword, short, long} x all d in -130..129 and the 16/32-bit boundaries, decimal and hex, all "
                      "synonym spellings"),
 }
+
+
+def spelling_variants(t):
+    """other ways of writing the same line"""
+    out = [("upper", t.upper()), ("mixed", "".join(c.upper() if i % 2 else c for i, c in enumerate(t)))]
+    parts = re.split(r"(\[[^\]]*\])", t)
+    for i in range(0, len(parts), 2):
+        parts[i] = re.sub(r"(?<![\w])(-?)(\d+)(?![\w])", lambda m: m.group(1) + "0" * (1 + len(m.group(2)) % 2) + m.group(2), parts[i])
+    lz = "".join(parts)
+    if lz != t:
+        out.append(("leading-zero", lz))
+    return out
 
 
 def nop_items():
@@ -1679,8 +1833,14 @@ def check_enc(cx):
     sup = supported_forms()
     opts = cfg["quick"] if quick else cfg["thorough"]
     texts = list(items)
-    keys = [(o, t.encode()) for o in opts for t in texts]
-    ops, out = tie_lines(cx, impl, keys, "%s family x %d option bytes (whole per-line pipeline)" % (cx.prop, len(opts)))
+    # the two SIB options are independent: operands they can touch (no base register, stack pointer as index) are also assembled under
+    # the mixed settings (swap NASM + no-base STRICT, swap STRICT + no-base NASM)
+    mixed = tuple(m for m in cfg.get("mixed", ()) if m not in opts)
+
+    def opts_of(t):
+        return opts + (mixed if ("b=-" in items[t] or ",i=4," in items[t]) else ())
+    keys = [(o, t.encode()) for t in texts for o in opts_of(t)]
+    ops, out = tie_lines(cx, impl, keys, "%s family x %d option bytes (whole per-line pipeline)" % (cx.prop, len(opts) + len(mixed)))
     res = {}
     for (o, l), ln in zip(keys, out):
         p = ln.split()
@@ -1713,7 +1873,7 @@ def check_enc(cx):
         mn = want.split()[0]
         kinds = x86ref.kinds_of(want)
         wmn = t.split()[0]
-        for o in opts:
+        for o in opts_of(t):
             if ",i=4," in want and not (o & 4):
                 continue      # [base+rsp] under the STRICT swap option: the documented literal form, not judged
             rc, b = res[(o, t.encode())]
@@ -1745,16 +1905,63 @@ def check_enc(cx):
                 groups.setdefault((mn, pattern_of(want), r), []).append((t, o, b, decmap[b]))
             else:
                 nok += 1
+    # other spellings of the same lines (upper / mixed case, decimal numerals with leading zeros) must give the very same bytes, and a
+    # second assembly of the same line after NOP padding (chunk fitting re-assembles the record) must give the same instruction
+    bygroup = collections.OrderedDict()
+    for t in texts:
+        bygroup.setdefault((items[t].split()[0], pattern_of(items[t]), t.split()[0]), []).append(t)
+    vkeys, vsrc = [], {}
+    for g_, ts in bygroup.items():
+        big = [t for t in ts if re.search(r"(?<![\w\[*+-])-?(\d\d+|[89])(?![\w*])", re.sub(r"\[[^\]]*\]", "", t))][:8]
+        for j, t in enumerate(ts[:2] + big):
+            for kind, vt in spelling_variants(t):
+                if (kind == "leading-zero") != (j >= 2):
+                    continue
+                for o in opts:
+                    if vt != t and (o, vt.encode()) not in vsrc and (o, vt.encode()) not in res:
+                        vsrc[(o, vt.encode())] = (t, kind)
+                        vkeys.append((o, vt.encode()))
+    vops, vout = tie_lines(cx, impl, vkeys, "%s family in other spellings" % cx.prop)
+    nvar = 0
+    for (o, vt), ln in zip(vkeys, vout):
+        p = ln.split()
+        got = (p[0], p[2] if p[0] == "0" and len(p) > 2 else "-")
+        t, kind = vsrc[(o, vt)]
+        nvar += 1
+        if got != res[(o, t.encode())]:
+            groups.setdefault((items[t].split()[0], pattern_of(items[t]), "spelling (%s) changes the result" % kind), []).append(
+                (vt.decode(), o, got[1], "written normally: rc=%s bytes=%s" % res[(o, t.encode())]))
+    stream, expect = ["N 0 4096 cc"], []
+    for o in opts:
+        stream += ["S 0 mov %d" % (o % 4), "S 0 swap %d" % (o // 4 % 2), "S 0 nobase %d" % (o // 8 % 2)]
+        for g_, ts in bygroup.items():
+            for t in ts[:2]:
+                rc, b = res[(o, t.encode())]
+                if rc == "0" and b != "-" and 2 <= len(b) // 2 <= 15:
+                    expect.append((len(stream) + 3, o, t, b))
+                    stream += ["K 0 16", "O 0 15", "A 0 %s" % cases.hexs(t.encode()), "D 0 15 %d" % (16 + len(b) // 2)]
+    n2, out2, mism2, crash2 = alv.correspond(impl, stream, "%s family assembled a second time after padding" % cx.prop)
+    if crash2:
+        cx.violations.append({"kind": "crash", **crash2})
+    for m in mism2:
+        cx.broken.append({"correspondence": "second assembly after padding", **m})
+    cx.oblige("correspondence %s family assembled a second time after padding (chunk size 16, offset 15): %d lines" % (cx.prop, len(expect)),
+              not mism2 and not crash2, json.dumps(mism2[:3]))
+    for idx, o, t, b in expect:
+        if idx < len(out2) and out2[idx] != "90" + b:
+            groups.setdefault((items[t].split()[0], pattern_of(items[t]), "second assembly after padding differs"), []).append(
+                (t, o, out2[idx], "assembled once: " + b))
     for (mn, pat, reason), exs in groups.items():
         t, o, b, d = exs[0]
         cx.violations.append({"kind": "encoding", "mnemonic": mn, "operands": pat, "reason": reason, "count": len(exs), "line": t, "opt": o,
-                              "bytes": b, "decoded": d, "written": items[t],
+                              "bytes": b, "decoded": d, "written": items.get(t, "(another spelling of a family line)"),
                               "what": "the emitted bytes do not decode to the written instruction" if reason != "rejected" else
                                       "a supported form over encodable operands is rejected"})
     cx.count(len(keys), texts)
     relevant = {(m, f) for m, fs in sup.items() for f in fs}
-    cx.dist = {"lines": len(texts), "option_bytes": list(opts), "accepted_and_correct": nok, "rejected_supported": nrej,
+    cx.dist = {"lines": len(texts), "option_bytes": list(opts), "mixed_sib_option_bytes": list(mixed), "accepted_and_correct": nok, "rejected_supported": nrej,
                "rejected_not_supported_or_expected": nskip, "distinct_encodings": len(codes),
+               "other_spellings": nvar, "second_assemblies": len(expect),
                "supported_forms_exercised": len(covered & relevant), "violation_groups": len(groups)}
     cx.cov["samples"] = [texts[0], texts[len(texts) // 3], texts[len(texts) // 2], texts[-1]]
     cx.assumptions.append("binutils objdump is the second decoder the reference decoder is validated against; an instruction outside the reference "
@@ -1766,14 +1973,14 @@ def check_enc(cx):
 
 
 ENC_THEOREMS = {
-    "C01": ["AL.Properties.Sweep.c01_sweep", "AL.Properties.C01.nop_table_decodes", "AL.Properties.C01.no_operand_lines"],
-    "C02": ["AL.Properties.Sweep.c02_sweep", "AL.Properties.C02.disp_field_reads_back", "AL.Properties.C02.decoder_reads_every_operand", "AL.Spec.X86.leVal_assembleConst", "AL.Spec.X86.toSigned_roundtrip",
+    "C01": ["AL.Properties.Sweep.c01_sweep", "AL.Properties.C01.nop_table_decodes", "AL.Properties.C01.no_operand_lines", "AL.Properties.C01.letter_case_irrelevant"],
+    "C02": ["AL.Properties.Sweep.c02_sweep", "AL.Properties.Sweep.c02_sweep_mixed", "AL.Properties.C02.disp_field_reads_back", "AL.Properties.C02.decoder_reads_every_operand", "AL.Spec.X86.leVal_assembleConst", "AL.Spec.X86.toSigned_roundtrip",
             "AL.Properties.C11.swap_same_address", "AL.Properties.C11.nobase_scale2_same_address", "AL.Properties.C11.nobase_scale1_same_address"],
-    "C03": ["AL.Properties.Sweep.c03_sweep", "AL.Properties.C03.written_number_value", "AL.Properties.C03.imm_field_reads_back", "AL.Properties.C03.imm_field_dword", "AL.Properties.C03.imm_field_qword",
+    "C03": ["AL.Properties.Sweep.c03_sweep", "AL.Properties.C03.written_number_value", "AL.Properties.C03.written_number_value_padded", "AL.Properties.C03.imm_field_reads_back", "AL.Properties.C03.imm_field_dword", "AL.Properties.C03.imm_field_qword",
             "AL.Lemmas.assembleImm_dword", "AL.Lemmas.assembleImm_qword", "AL.Lemmas.assembleImm_reduced", "AL.Lemmas.assembleConst_pad",
             "AL.Lemmas.strtoul_dec", "AL.Lemmas.strtoul_hex", "AL.Lemmas.strtoul_neg_dec", "AL.Lemmas.strtoul_neg_hex"],
     "C04": ["AL.Properties.Sweep.c04_sweep", "AL.Properties.C04.vex2_is_vex3"],
-    "C05": ["AL.Properties.Sweep.c05_sweep", "AL.Properties.C05.rel_field_reads_back", "AL.Properties.C05.written_displacement"],
+    "C05": ["AL.Properties.Sweep.c05_sweep", "AL.Properties.C05.rel_field_reads_back", "AL.Properties.C05.written_displacement", "AL.Properties.C03.written_number_value_padded"],
 }
 
 
@@ -2036,6 +2243,9 @@ def stores_to(sym):
     return hits
 
 
+THR_WRAP = "-Wl,--wrap=mmap,--wrap=mremap,--wrap=munmap"
+
+
 def check_C18(cx):
     thms = ["AL.Properties.C18." + t for t in ["slot_invariant", "stored_slot_stays", "load_after_own_create", "lookup_alone", "format_lookup_alone",
             "snapshot_is_final"]]
@@ -2071,7 +2281,7 @@ def check_C18(cx):
     viol = 0
     runs = []
     for flavour in ("tsan", "o2"):
-        impl = build_impl(cx, name="thrdrv", flavour=flavour)
+        impl = build_impl(cx, name="thrdrv", flavour=flavour, extra_flags=(THR_WRAP,))
         if not impl:
             return finish(cx, "")
         for n, rounds in ([(2, 3), (8, 4), (16, 3)] if quick else [(2, 10), (4, 20), (8, 20), (16, 20), (32, 10), (64, 5)]):
@@ -2094,7 +2304,7 @@ def check_C18(cx):
     # deterministic interleavings (hook ALVERIF_INDEX_STORE): thread A makes the process's first create and is held after its k-th
     # index table store while thread B runs a complete job; every k, one process each (what happened before the first create of a
     # process cannot be re-entered later)
-    impl = build_impl(cx, name="thrdrv", flavour="tsan")
+    impl = build_impl(cx, name="thrdrv", flavour="tsan", extra_flags=(THR_WRAP,))
     nsched = 0
     held_first = False
     for k in range(1, 26):
@@ -2116,10 +2326,33 @@ def check_C18(cx):
         cx.count(int(m.group(2)) * 2, [])
     cx.oblige("hook ALVERIF_INDEX_STORE present: thread A was held inside its create in the scheduled runs", nsched > 0 and held_first,
               "the hook did not fire (source_commits of MANIFEST.hooks)")
+    # deterministic interleavings at the library's OS calls: A (creating, growing and releasing library-managed buffers) is held right
+    # after its k-th mmap / mremap / munmap while B creates its own buffers, which B keeps using after A has finished
+    nos, held_os = 0, 0
+    for flavour in ("tsan", "o2"):
+        impl = build_impl(cx, name="thrdrv", flavour=flavour, extra_flags=(THR_WRAP,))
+        for k in range(1, 10):
+            env = dict(os.environ, TSAN_OPTIONS="halt_on_error=0 exitcode=66 report_signal_unsafe=0")
+            p = subprocess.run([impl, "os", str(k)], stdout=subprocess.PIPE, stderr=subprocess.PIPE, env=env, timeout=600)
+            out = p.stdout.decode("latin1").strip().split("\n")
+            err = p.stderr.decode("latin1")
+            races = err.count("WARNING: ThreadSanitizer")
+            m = re.search(r"held=(\d) os_calls_by_A=(\d+) steps=(\d+) mismatches=(\d+)", out[-1] if out else "")
+            nos += 1
+            held_os += 1 if m and m.group(1) == "1" else 0
+            if p.returncode != 0 or races or not m or m.group(4) != "0":
+                cx.violations.append({"kind": "interleaving", "schedule": "thread A held right after its %d-th mmap/mremap/munmap while thread B creates "
+                                      "library-managed instances that it keeps using after A has finished" % k, "build": flavour,
+                                      "replay_cmd": "thrdrv os %d" % k, "exit": p.returncode, "tsan_reports": races, "result": out[-4:],
+                                      "stderr": err[-600:], "what": "a thread using only its own instances crashes or does not get the results it gets "
+                                      "when running alone"})
+                break
+            cx.count(int(m.group(3)), [])
+    cx.oblige("OS-call schedules: thread A was held after an OS call in at least 5 schedules per build", held_os >= 10, "held in %d of %d" % (held_os, nos))
     cx.nontrivial.update((r[0], r[1], r[2]) for r in runs)
     cx.nontrivial.update(("sched", k) for k in range(1, nsched + 1))
     cx.cov["samples"] = runs[:4]
-    cx.dist = {"runs": runs, "globals": sorted(glob)[:8], "scheduled_interleavings": nsched}
+    cx.dist = {"runs": runs, "globals": sorted(glob)[:8], "scheduled_interleavings": nsched, "os_call_interleavings": nos}
     cx.assumptions.append("the C11 memory model for _Atomic int accesses (sequentially consistent) and libc's internal locking are assumed; races on "
                           "non-atomic objects are observed by ThreadSanitizer over the schedules that occurred, not proved absent")
     return finish(cx, "2..64 threads each looping create (internal and caller buffer) / all three option setters / assemble in plain, fitting and "
